@@ -72,6 +72,10 @@ func (vc *VC) newFrame(fn *ssa.Function, c *FuncContract, path string, depth int
 					_ = id
 				}
 				if obj := d.Object(); obj != nil {
+					// a selected field is not a local variable of that name
+					if fv, isVar := obj.(*types.Var); isVar && fv.IsField() {
+						continue
+					}
 					fr.dbg[obj.Name()] = append(fr.dbg[obj.Name()], dbgRef{d.X, d.IsAddr, b})
 				}
 			}
@@ -960,6 +964,7 @@ func (fr *Frame) instr(st *State, b *ssa.BasicBlock, in ssa.Instruction) (bool, 
 			binds[i] = bt
 		}
 		vc.ctx.closures[t.S] = &closureInfo{fn: fn, binds: binds}
+		fr.closureSiteChecks(st, x, fn, binds)
 	case *ssa.MakeChan:
 		r := vc.allocObject(st, nil)
 		def(x, r)
